@@ -235,6 +235,9 @@ def gen_cases(ctx):
                 toks = [t for t in toks if t != "with"] or ["zz"]
                 cs_text, cs = " ".join(toks), None
                 oracle_ok = False
+            if "with" in cs_text.split():  # a term named `with` cannot be written in a rule (Rule.parse cuts the weight there: C16)
+                cs_text, cs = " ".join(t for t in cs_text.split() if t != "with") or "zz", None
+                oracle_ok = False
             rules.append({"enabled": rng.random() < 0.8, "cons": cs_text, "weight": rng.choice([None, None, 0.5, 1.0]), "degree": gen_degree(rng), "structure": cs})
         if rng.random() < 0.06:
             rng.choice(vs)["cleared"] = True
@@ -264,7 +267,24 @@ def gen_cases(ctx):
             inp = gen_degree(rng)
         cases.append({"kind": "trigger", "mode": "activate", "dtype": "array" if batch else "scalar", "impl": rng.choice([None] + TNORMS), "oracle": True,
                       "family": None, "vars": vs, "rules": rules, "input": inp})
-    # (e) Consequent.load alone: well-formed, mutated and random texts, quirky engines
+    # (e) Consequent.load alone: crafted corner cases, then well-formed, mutated and random texts, quirky engines
+    def V(name, terms, enabled=True):
+        return {"name": name, "enabled": enabled, "cleared": False, "terms": terms, "old": []}
+
+    crafted = [
+        ([V("y", ["very", "p"])], ["y is very", "y is very very", "y is very p", "y is not very", "y is p and y is very", "y is p very"]),   # hedge names win over term names
+        ([V("is", ["is", "p"])], ["is is is", "is is p", "is is", "is p", "is is is and is is p"]),
+        ([V("and", ["and"]), V("y", ["p"])], ["and is and and and is and", "y is p and and is and", "y is p and", "and and"]),
+        ([V("y", ["p"]), V("y", ["q"])], ["y is p", "y is q", "y is q and y is q"]),                                                     # the last variable named y wins
+        ([V("y", ["p", "q", "p"])], ["y is p", "y is q and y is p"]),                                                                   # the last term named p wins
+        ([V("y", []), V("z", ["p"])], ["y is p", "z is p", "z is p and y is p"]),                                                       # a variable without terms is falsy
+        ([V("y", ["p"], False)], ["y is p", "y is very p and y is p"]),                                                                 # disabled variables load normally
+        ([V("y", ["p"])], ["y is p with 0.5", "y is p with", "with", "y = p", "y is", "y", "y is any", "y is any p", "y is p and", "y is p y is p", "y is p and y",
+                           "y is p and and y is p", "Y is p", "y IS p", "y is extremely seldom somewhat not any very p", "# y is p"]),
+    ]
+    for vs, texts in crafted:
+        for t in texts:
+            cases.append({"kind": "load", "vars": vs, "text": t})
     for _ in range(ctx.n(420, 6000)):
         vs = gen_vars(rng, rng.random() < 0.45)
         cs = gen_structure(rng, vs)
